@@ -9,7 +9,8 @@ CHECKS = {
             'E1',
             'Implementation-level model checking: the real Controller, ComponentState, Engine, RepeatingEngine and monitor classes run under a '
             'virtual runtime that owns rx schedulers, threads, events, locks, sleeps, the clock and the task backend. ~900 (workflow x exit '
-            'script x duration) scenarios over 21 workflow shapes (incl. a real DoWhile loop and a restart from a later stage) are executed on '
+            'script x duration) scenarios over 26 workflow shapes (incl. real DoWhile loops, a restart from a later stage, operator pause/wake-up and '
+            'memoization through a fake component database) are executed on '
             'the canonical fair schedule; every schedule with <=1 deviation is executed for the core scenarios (thorough: for every single-fault '
             'scenario), every 1-deviation schedule at boundary actions for the two-fault race scenarios, and line-level preemption points with a '
             'stall deviation inside Controller.run / finishedCheck / ComponentState.finish. The launch-ordering invariant is evaluated at every '
